@@ -137,7 +137,7 @@ dispatch_time(dispatch_time_t inval, int64_t delta)
 		}
 		return _dispatch_clock_and_value_to_time(clock, value);
 	} else {
-		offset = _dispatch_time_nano2mach((uint64_t)-delta);
+		offset = _dispatch_time_nano2mach(-(uint64_t)delta);
 		if ((int64_t)(value -= offset) < 1) {
 			return _dispatch_clock_and_value_to_time(clock, 1); // underflow
 		}
